@@ -203,7 +203,9 @@ func c02exec(c *h.Ctx, cs *h.Case) {
 				continue
 			}
 			cs.Impl = append(cs.Impl, "ok")
-		case len(tk) == 7 && tk[1] == "net":
+		case (len(tk) == 7 || (len(tk) == 8 && strings.HasPrefix(tk[7], "si"))) && tk[1] == "net":
+			// an eighth token si<v>: before the frame, on the same connection, the sender announces itself AGAIN, as server v
+			// (a ServerIdentity message in the middle of an established connection)
 			// c02 net <conn|self:k> <type> <claimed sender> <value> <w<k>|w->: through the real routers
 			ty, _ := strconv.Atoi(tk[3])
 			v, _ := strconv.Atoi(tk[5])
@@ -228,7 +230,16 @@ func c02exec(c *h.Ctx, cs *h.Case) {
 				k, _ := strconv.Atoi(tk[6][1:])
 				pm.ServerIdentity = f.cl.SI(k)
 			}
-			if err := c02sendReal(f, from, ct.srv, pm); err != nil {
+			var pre []network.Message
+			if len(tk) == 8 {
+				if v, err := strconv.Atoi(tk[7][2:]); err == nil && v >= 0 && v < len(f.cl.Roster.List) {
+					pre = append(pre, f.cl.SI(v))
+				} else {
+					cs.Impl = append(cs.Impl, "bad-op")
+					continue
+				}
+			}
+			if err := c02sendReal(f, from, ct.srv, pm, pre...); err != nil {
 				cs.Impl = append(cs.Impl, "send-failed")
 				cs.Fail("send-failed", err.Error())
 				return
@@ -719,6 +730,51 @@ func c02gen(c *h.Ctx, yield func(*h.Case)) {
 						}
 						c.Count("class=net")
 						c.Count("sender=" + classify(s, conn))
+						yield(cs)
+					}
+				}
+			}
+		}
+	}
+	// an identity message in the middle of an established connection (seeded C02r7-A): member z announces itself again,
+	// as member v, and then names v's node; or announces somebody else and goes on honestly
+	for _, root := range []bool{false, true} {
+		for _, k := range []int{1, 2} {
+			n := k + 2
+			srv := 1
+			if root {
+				n = k + 1
+				srv = 0
+			}
+			for ty := 1; ty <= 4; ty++ {
+				for z := 0; z <= n; z++ {
+					for v := 0; v < n; v++ {
+						if z == srv || z == v || r.Intn(c.Pick(4, 1)) != 0 {
+							continue
+						}
+						conn := strconv.Itoa(z)
+						if z == n {
+							conn = "10" // a server outside the tree
+						}
+						cs := &h.Case{Class: fmt.Sprintf("net midconn ty=%d", ty)}
+						cs.Ops = append(cs.Ops, cfg(root, k))
+						val++
+						if r.Intn(3) > 0 || z == n {
+							// z, having announced itself as v, names v's node
+							cs.Ops = append(cs.Ops, fmt.Sprintf("c02 net %s %d %d %d w- si%d", conn, ty, 10+v, val, v))
+						} else {
+							// z announces itself as v and goes on naming its own node
+							cs.Ops = append(cs.Ops, fmt.Sprintf("c02 net %s %d %d %d w- si%d", conn, ty, 10+z, val, v))
+						}
+						first := 2
+						if root {
+							first = 1
+						}
+						for i := 0; i < k; i++ {
+							val++
+							cs.Ops = append(cs.Ops, fmt.Sprintf("c02 net %d %d %d %d w-", first+i, ty, 10+first+i, val))
+						}
+						c.Count("class=net midconn")
 						yield(cs)
 					}
 				}
